@@ -340,18 +340,39 @@ Lemma as_message_ser c t fs : Forall (shape_ok []) fs -> nlen (ser fs) < U64 ->
   as_message (S c) (snd (enc_msg t fs)) = Ok fs.
 Proof. intros. cbn [enc_msg snd as_message]. now apply parse_ser. Qed.
 
-(* ---------- messages made of singular strings ---------- *)
-Lemma merge_strs_good tags st f : good (merge_strs tags st f).
+(* ---------- integers ---------- *)
+Lemma to_i64_of_int z : (-9223372036854775808 <= z < 9223372036854775808)%Z -> to_i64 (of_int z) = z.
 Proof.
-  destruct f as [t v]. unfold merge_strs. destruct (existsb (N.eqb t) tags); [|exact I].
-  pose proof (as_string_good v). now destruct (as_string v).
+  intros H. unfold to_i64, of_int, U64, U63.
+  destruct (z <? 0)%Z eqn:E.
+  - replace (Z.to_N (z mod Z.of_N 18446744073709551616) mod 18446744073709551616) with (Z.to_N (z + 18446744073709551616)) by lia.
+    replace (Z.to_N (z + 18446744073709551616) <? 9223372036854775808) with false by lia. lia.
+  - replace (Z.to_N (z mod Z.of_N 18446744073709551616) mod 18446744073709551616) with (Z.to_N z) by lia.
+    replace (Z.to_N z <? 9223372036854775808) with true by lia. lia.
 Qed.
-Lemma dec_strs_good tags fs : good (dec_strs tags fs).
-Proof. apply fold_res_good. intros. apply merge_strs_good. Qed.
+Lemma to_i32_of_int z : (-2147483648 <= z < 2147483648)%Z -> to_i32 (of_int z) = z.
+Proof.
+  intros H. unfold to_i32, of_int, U64, U32, U31.
+  destruct (z <? 0)%Z eqn:E.
+  - replace (Z.to_N (z mod Z.of_N 18446744073709551616) mod 4294967296) with (Z.to_N (z + 4294967296)) by lia.
+    replace (Z.to_N (z + 4294967296) <? 2147483648) with false by lia. lia.
+  - replace (Z.to_N (z mod Z.of_N 18446744073709551616) mod 4294967296) with (Z.to_N z) by lia.
+    replace (Z.to_N z <? 2147483648) with true by lia. lia.
+Qed.
+Lemma to_i64_range n : (-9223372036854775808 <= to_i64 n < 9223372036854775808)%Z.
+Proof.
+  unfold to_i64, U64, U63. destruct (n mod 18446744073709551616 <? 9223372036854775808) eqn:E; lia.
+Qed.
+Lemma to_i32_range n : (-2147483648 <= to_i32 n < 2147483648)%Z.
+Proof. unfold to_i32, U32, U31. destruct (n mod 4294967296 <? 2147483648) eqn:E; lia. Qed.
+Lemma of_int_lt z : of_int z < U64.
+Proof. unfold of_int, U64. lia. Qed.
 
-Definition tags_ok (tags : list N) : Prop := NoDup tags /\ Forall (fun t => 1 <= t <= MAX_TAG) tags.
-Definition strs_ok (tags : list N) (vals : list (list N)) : Prop :=
-  length vals = length tags /\ Forall (fun v => utf8_valid v = true) vals.
+(* ---------- the schema-driven codec ---------- *)
+Definition tags_of {K} (s : list (String.string * N * K)) : list N := map ftag s.
+Definition tag_range (t : N) : Prop := 1 <= t <= MAX_TAG.
+Definition payload_bytes_ok (f : field) : Prop :=
+  match snd f with WVar _ | WGrp => True | W64 b | WLen b | W32 b => bytes_ok b = true end.
 
 Lemma existsb_eqb_in t tags : existsb (N.eqb t) tags = true <-> In t tags.
 Proof.
@@ -359,104 +380,546 @@ Proof.
   - intros (x & Hx & E). apply N.eqb_eq in E. now subst.
   - intros H. exists t. split; [exact H|apply N.eqb_refl].
 Qed.
-Lemma existsb_eqb_notin t tags : ~ In t tags -> existsb (N.eqb t) tags = false.
-Proof. intros H. destruct (existsb (N.eqb t) tags) eqn:E; [|reflexivity]. apply existsb_eqb_in in E. contradiction. Qed.
+
+Lemma find_field_mid {K} (pre : list (String.string * N * K)) e post :
+  ~ In (ftag e) (tags_of pre) -> find_field (ftag e) (pre ++ e :: post) = Some (length pre, fknd e).
+Proof.
+  induction pre as [|p pre IH]; intros H; cbn [app find_field length].
+  - now rewrite N.eqb_refl.
+  - replace (ftag e =? ftag p) with false by (symmetry; apply N.eqb_neq; intros E; apply H; left; now rewrite E).
+    rewrite IH; [reflexivity|]. intros Hin. apply H. now right.
+Qed.
+Lemma find_field_none {K} t (s : list (String.string * N * K)) : ~ In t (tags_of s) -> find_field t s = None.
+Proof.
+  induction s as [|e s IH]; intros H; [reflexivity|]. cbn [find_field].
+  replace (t =? ftag e) with false by (symmetry; apply N.eqb_neq; intros E; apply H; left; now rewrite E).
+  rewrite IH; [reflexivity|]. intros Hin. apply H. now right.
+Qed.
+Lemma upd_mid {A} (pre : list A) x y post : upd (length pre) x (pre ++ y :: post) = pre ++ x :: post.
+Proof. induction pre as [|p pre IH]; cbn [app upd length]; [reflexivity|now rewrite IH]. Qed.
+Lemma nth_mid {A} (pre : list A) y post d : nth (length pre) (pre ++ y :: post) d = y.
+Proof. induction pre as [|p pre IH]; cbn [app nth length]; [reflexivity|exact IH]. Qed.
+
+(* -- scalars -- *)
+Definition sval_ok (k : skind) (v : sval) : Prop :=
+  match k, v with
+  | SInt32, VInt z => (-2147483648 <= z < 2147483648)%Z
+  | SInt64, VInt z => (-9223372036854775808 <= z < 9223372036854775808)%Z
+  | SString, VBs b => utf8_valid b = true
+  | SBytes, VBs _ => True
+  | _, _ => False
+  end.
+Definition sval_bytes_ok (v : sval) : Prop := match v with VBs b => bytes_ok b = true | VInt _ => True end.
+
+(* a scalar field is either left out - then its value is the default - or written as one token that
+   its merge reads back *)
+Lemma merge_enc_s tag k v : sval_ok k v ->
+  (enc_s tag k v = [] /\ v = dflt_s k) \/ (exists w, enc_s tag k v = [(tag, w)] /\ merge_s k w = Ok v).
+Proof.
+  destruct k, v as [z|b]; cbn [sval_ok enc_s]; intros H; try contradiction.
+  - unfold enc_int. destruct (z =? 0)%Z eqn:E; [left; split; [reflexivity|cbn; f_equal; lia]|].
+    right. eexists. split; [reflexivity|]. cbn [merge_s as_varint bind]. now rewrite to_i32_of_int.
+  - unfold enc_int. destruct (z =? 0)%Z eqn:E; [left; split; [reflexivity|cbn; f_equal; lia]|].
+    right. eexists. split; [reflexivity|]. cbn [merge_s as_varint bind]. now rewrite to_i64_of_int.
+  - destruct b as [|c b]; [left; now split|]. right. eexists. split; [reflexivity|].
+    cbn [merge_s as_string]. rewrite H. reflexivity.
+  - destruct b as [|c b]; [left; now split|]. right. eexists. split; [reflexivity|]. reflexivity.
+Qed.
+
+Lemma enc_s_shape lenient tag k v : tag_range tag ->
+  (match k with SInt32 | SInt64 => existsb (N.eqb tag) lenient = false | _ => True end) ->
+  Forall (shape_ok lenient) (enc_s tag k v).
+Proof.
+  intros Ht Hl. destruct k, v as [z|b]; cbn [enc_s]; try constructor; unfold enc_int, enc_str.
+  - destruct (z =? 0)%Z; constructor; [|constructor]. split; [exact Ht|]. split; [apply of_int_lt|exact Hl].
+  - destruct (z =? 0)%Z; constructor; [|constructor]. split; [exact Ht|]. split; [apply of_int_lt|exact Hl].
+  - destruct b; constructor; [|constructor]. split; [exact Ht|exact I].
+  - destruct b; constructor; [|constructor]. split; [exact Ht|exact I].
+Qed.
+Lemma enc_s_bytes tag k v : sval_bytes_ok v -> Forall payload_bytes_ok (enc_s tag k v).
+Proof.
+  intros H. destruct k, v as [z|b]; cbn [enc_s]; try constructor; unfold enc_int, enc_str.
+  - destruct (z =? 0)%Z; constructor; [exact I|constructor].
+  - destruct (z =? 0)%Z; constructor; [exact I|constructor].
+  - destruct b; constructor; [exact H|constructor].
+  - destruct b; constructor; [exact H|constructor].
+Qed.
+Lemma enc_s_tags tag k v f : In f (enc_s tag k v) -> fst f = tag.
+Proof.
+  destruct k, v as [z|b]; cbn [enc_s]; unfold enc_int, enc_str; try contradiction.
+  - destruct (z =? 0)%Z; [contradiction|]. intros [<-|[]]. reflexivity.
+  - destruct (z =? 0)%Z; [contradiction|]. intros [<-|[]]. reflexivity.
+  - destruct b; [contradiction|]. intros [<-|[]]. reflexivity.
+  - destruct b; [contradiction|]. intros [<-|[]]. reflexivity.
+Qed.
+Lemma merge_s_good k w : good (merge_s k w).
+Proof.
+  destruct k; cbn [merge_s]; (apply good_bind; [|intros; exact I]);
+    [apply as_varint_good|apply as_varint_good|apply as_string_good|apply as_bytes_good].
+Qed.
+
+(* -- flat messages -- *)
+Definition flat_ok (s : flat) : Prop := NoDup (tags_of s) /\ Forall tag_range (tags_of s).
+Definition fvals_ok (s : flat) (vs : list sval) : Prop := Forall2 (fun e v => sval_ok (fknd e) v) s vs.
+
+Lemma merge_flat_good s st f : good (merge_flat s st f).
+Proof.
+  destruct f as [t w]. unfold merge_flat. destruct (find_field t s) as [[i k]|]; [|exact I].
+  apply good_bind; [apply merge_s_good|intros; exact I].
+Qed.
+Lemma dec_flat_good s fs : good (dec_flat s fs).
+Proof. apply fold_res_good. intros. apply merge_flat_good. Qed.
 
 (* decoding the fields of the tags not yet seen fills exactly their slots *)
-Lemma dec_strs_enc_aux : forall ts pre_t pre_v vs,
-  NoDup (pre_t ++ ts) -> length pre_v = length pre_t -> length vs = length ts ->
-  Forall (fun v => utf8_valid v = true) vs ->
-  fold_res (merge_strs (pre_t ++ ts)) (enc_strs ts vs) (pre_v ++ map (fun _ => []) ts) = Ok (pre_v ++ vs).
+Lemma dec_flat_enc_aux : forall post pre pre_v vs,
+  NoDup (tags_of (pre ++ post)) -> length pre_v = length pre -> fvals_ok post vs ->
+  fold_res (merge_flat (pre ++ post)) (enc_flat post vs) (pre_v ++ dflt_flat post) = Ok (pre_v ++ vs).
 Proof.
-  induction ts as [|t ts IH]; intros pre_t pre_v vs Hnd Hlp Hlv Hu.
-  - destruct vs; [|discriminate]. reflexivity.
-  - destruct vs as [|v vs]; [discriminate|]. inversion Hu as [|? ? Hu1 Hu2]; subst.
-    cbn [enc_strs map]. rewrite fold_res_app.
-    assert (Step : fold_res (merge_strs (pre_t ++ t :: ts)) (enc_str t v) (pre_v ++ [] :: map (fun _ => []) ts)
-                   = Ok (pre_v ++ v :: map (fun _ => []) ts)).
-    { destruct v as [|b v]; [reflexivity|]. cbn [enc_str fold_res merge_strs].
-      rewrite (proj2 (existsb_eqb_in t (pre_t ++ t :: ts))) by (apply in_or_app; right; now left).
-      cbn [as_string]. rewrite Hu1. f_equal.
-      assert (Hnot : ~ In t pre_t).
-      { intros Hin. apply NoDup_remove_2 in Hnd. apply Hnd. apply in_or_app. now left. }
-      clear - Hlp Hnot. revert pre_v Hlp. induction pre_t as [|p pre_t IHp]; intros pre_v Hlp.
-      - destruct pre_v; [|discriminate]. cbn. now rewrite N.eqb_refl.
-      - destruct pre_v as [|q pre_v]; [discriminate|]. cbn [app set_str].
-        replace (t =? p) with false by (symmetry; apply N.eqb_neq; intros ->; apply Hnot; now left).
-        f_equal. apply IHp; [intros H; apply Hnot; now right|]. cbn in Hlp. lia. }
-    rewrite Step. cbn [bind].
-    replace (pre_t ++ t :: ts) with ((pre_t ++ [t]) ++ ts) by (now rewrite <- app_assoc).
-    replace (pre_v ++ v :: map (fun _ => []) ts) with ((pre_v ++ [v]) ++ map (fun _ => []) ts) by (now rewrite <- app_assoc).
-    rewrite IH.
-    + now rewrite <- app_assoc.
-    + now rewrite <- app_assoc.
+  induction post as [|e post IH]; intros pre pre_v vs Hnd Hlp Hv.
+  - inversion Hv; subst. reflexivity.
+  - inversion Hv as [|? v ? vs' Hv1 Hv2]; subst. cbn [enc_flat dflt_flat map]. rewrite fold_res_app.
+    assert (Hnot : ~ In (ftag e) (tags_of pre)).
+    { unfold tags_of in *. rewrite map_app in Hnd. cbn [map] in Hnd. apply NoDup_remove_2 in Hnd.
+      intros Hin. apply Hnd. apply in_or_app. now left. }
+    assert (Step : fold_res (merge_flat (pre ++ e :: post)) (enc_s (ftag e) (fknd e) v)
+                     (pre_v ++ dflt_s (fknd e) :: dflt_flat post) = Ok (pre_v ++ v :: dflt_flat post)).
+    { destruct (merge_enc_s (ftag e) (fknd e) v Hv1) as [[-> ->]|(w & -> & Hw)]; [reflexivity|].
+      cbn [fold_res merge_flat]. rewrite (find_field_mid pre e post Hnot), Hw. cbn [bind].
+      rewrite <- Hlp, upd_mid. reflexivity. }
+    fold (dflt_flat post). rewrite Step. cbn [bind].
+    replace (pre ++ e :: post) with ((pre ++ [e]) ++ post) in * by (now rewrite <- app_assoc).
+    replace (pre_v ++ v :: dflt_flat post) with ((pre_v ++ [v]) ++ dflt_flat post) by (now rewrite <- app_assoc).
+    rewrite IH; [now rewrite <- app_assoc|exact Hnd| |exact Hv2].
+    rewrite !app_length. cbn. lia.
+Qed.
+
+Theorem dec_flat_enc s vs : flat_ok s -> fvals_ok s vs -> dec_flat s (enc_flat s vs) = Ok vs.
+Proof. intros [Hnd _] Hv. exact (dec_flat_enc_aux s [] [] vs Hnd eq_refl Hv). Qed.
+
+Lemma enc_flat_shape s vs : Forall tag_range (tags_of s) -> Forall (shape_ok []) (enc_flat s vs).
+Proof.
+  revert vs. induction s as [|e s IH]; intros vs Ht; [constructor|]. destruct vs as [|v vs]; [constructor|].
+  inversion Ht; subst. cbn [enc_flat]. apply Forall_app. split; [|now apply IH].
+  apply enc_s_shape; [assumption|]. now destruct (fknd e).
+Qed.
+Lemma enc_flat_bytes s vs : Forall sval_bytes_ok vs -> Forall payload_bytes_ok (enc_flat s vs).
+Proof.
+  revert vs. induction s as [|e s IH]; intros vs Hv; [constructor|]. destruct vs as [|v vs]; [constructor|].
+  inversion Hv; subst. cbn [enc_flat]. apply Forall_app. split; [now apply enc_s_bytes|now apply IH].
+Qed.
+
+(* -- top-level messages -- *)
+Definition val_ok (k : fkind) (v : val) : Prop :=
+  match k, v with
+  | FScalar sk, VS x => sval_ok sk x
+  | FStringRep, VStrs l => Forall (fun b => utf8_valid b = true) l
+  | FMsgOpt fs, VOpt o => match o with Some x => fvals_ok fs x | None => True end
+  | FMsgRep fs, VRep l => Forall (fvals_ok fs) l
+  | FMapSS, VMap m =>
+      NoDup (map fst m) /\ Forall (fun kv => utf8_valid (fst kv) = true /\ utf8_valid (snd kv) = true) m
+  | _, _ => False
+  end.
+Definition val_bytes_ok (v : val) : Prop :=
+  match v with
+  | VS x => sval_bytes_ok x
+  | VStrs l => Forall (fun b => bytes_ok b = true) l
+  | VOpt o => match o with Some x => Forall sval_bytes_ok x | None => True end
+  | VRep l => Forall (Forall sval_bytes_ok) l
+  | VMap m => Forall (fun kv => bytes_ok (fst kv) = true /\ bytes_ok (snd kv) = true) m
+  end.
+Definition vals_ok (s : schema) (vs : list val) : Prop := Forall2 (fun e v => val_ok (fknd e) v) s vs.
+Definition kind_ok (k : fkind) : Prop := match k with FMsgOpt fs | FMsgRep fs => flat_ok fs | _ => True end.
+Definition schema_ok (s : schema) : Prop :=
+  NoDup (tags_of s) /\ Forall tag_range (tags_of s) /\ Forall (fun e => kind_ok (fknd e)) s.
+
+Lemma ENTRY_ok : flat_ok ENTRY.
+Proof.
+  split; [repeat (constructor; [cbn; intuition discriminate|]); constructor
+         |repeat (constructor; [split; vm_compute; discriminate|]); constructor].
+Qed.
+
+Lemma map_insert_fresh m k v : ~ In k (map fst m) -> map_insert m k v = m ++ [(k, v)].
+Proof.
+  induction m as [|[k' v'] m IH]; intros H; [reflexivity|]. cbn [map_insert].
+  destruct (bytes_eqb k' k) eqn:E.
+  - apply bytes_eqb_eq in E. subst. exfalso. apply H. now left.
+  - cbn [app]. f_equal. apply IH. intros Hin. apply H. now right.
+Qed.
+
+Lemma merge_f_good s st f : good (merge_f s st f).
+Proof.
+  destruct f as [t w]. unfold merge_f. destruct (find_field t s) as [[i k]|]; [|exact I].
+  destruct k as [sk| |fs|fs|].
+  - apply good_bind; [apply merge_s_good|intros; exact I].
+  - destruct (nth i st (dflt_f FStringRep)); try exact I. apply good_bind; [apply as_string_good|intros; exact I].
+  - destruct (nth i st (dflt_f (FMsgOpt fs))); try exact I.
+    apply good_bind; [apply as_message_good|]. intros toks _.
+    apply good_bind; [apply fold_res_good; intros; apply merge_flat_good|intros; exact I].
+  - destruct (nth i st (dflt_f (FMsgRep fs))); try exact I.
+    apply good_bind; [apply as_message_good|]. intros toks _.
+    apply good_bind; [apply dec_flat_good|intros; exact I].
+  - destruct (nth i st (dflt_f FMapSS)); try exact I.
+    apply good_bind; [apply as_message_good|]. intros toks _.
+    apply good_bind; [apply dec_flat_good|intros; exact I].
+Qed.
+(* Message::decode of any table on any bytes: Ok or Err *)
+Theorem dec_g_good s b : good (dec_g s b).
+Proof.
+  unfold dec_g. apply good_bind; [apply parse_good|]. intros fs _. apply fold_res_good. intros. apply merge_f_good.
+Qed.
+
+(* the tokens of one field, decoded into the slot of that field *)
+Section FieldStep.
+  Variables (pre : schema) (e : String.string * N * fkind) (post : schema).
+  Local Notation S := (pre ++ e :: post).
+  Hypothesis Hnot : ~ In (ftag e) (tags_of pre).
+  Variable pre_v rest : list val.
+  Hypothesis Hlen : length pre_v = length pre.
+
+  Local Lemma slot x d : nth (length pre) (pre_v ++ x :: rest) d = x.
+  Proof. rewrite <- Hlen. apply nth_mid. Qed.
+  Local Lemma put x y : upd (length pre) y (pre_v ++ x :: rest) = pre_v ++ y :: rest.
+  Proof. rewrite <- Hlen. apply upd_mid. Qed.
+  Local Lemma found : find_field (ftag e) S = Some (length pre, fknd e).
+  Proof. now apply find_field_mid. Qed.
+
+  Lemma step_strs l : forall acc, fknd e = FStringRep -> Forall (fun b => utf8_valid b = true) l ->
+    fold_res (merge_f S) (enc_rep_str (ftag e) l) (pre_v ++ VStrs acc :: rest) = Ok (pre_v ++ VStrs (acc ++ l) :: rest).
+  Proof.
+    induction l as [|b l IH]; intros acc Hk Hl; [cbn; now rewrite app_nil_r|].
+    inversion Hl; subst. cbn [enc_rep_str map fold_res merge_f]. rewrite found, Hk, slot.
+    cbn [as_string]. replace (utf8_valid b) with true by auto. cbn [bind]. rewrite put.
+    fold (enc_rep_str (ftag e) l). rewrite IH by assumption. now rewrite <- app_assoc.
+  Qed.
+
+  Lemma step_rep fs l : forall acc, fknd e = FMsgRep fs -> flat_ok fs -> Forall (fvals_ok fs) l ->
+    (forall x, In x l -> nlen (ser (enc_flat fs x)) < U64) ->
+    fold_res (merge_f S) (map (fun x => enc_msg (ftag e) (enc_flat fs x)) l) (pre_v ++ VRep acc :: rest)
+    = Ok (pre_v ++ VRep (acc ++ l) :: rest).
+  Proof.
+    induction l as [|x l IH]; intros acc Hk Hfs Hl Hsz; [cbn; now rewrite app_nil_r|].
+    inversion Hl; subst. cbn [map fold_res merge_f enc_msg]. rewrite found, Hk, slot.
+    cbn [as_message RECURSION_LIMIT].
+    rewrite parse_ser; [|apply enc_flat_shape, Hfs|apply Hsz; now left]. cbn [bind].
+    rewrite dec_flat_enc by assumption. cbn [bind]. rewrite put.
+    rewrite IH; [now rewrite <- app_assoc|assumption|assumption|assumption|]. intros; apply Hsz. now right.
+  Qed.
+
+  Lemma step_map m : forall acc, fknd e = FMapSS -> NoDup (map fst (acc ++ m)) ->
+    Forall (fun kv => utf8_valid (fst kv) = true /\ utf8_valid (snd kv) = true) m ->
+    (forall kv, In kv m -> nlen (ser (enc_flat ENTRY [VBs (fst kv); VBs (snd kv)])) < U64) ->
+    fold_res (merge_f S) (map (fun kv => enc_msg (ftag e) (enc_flat ENTRY [VBs (fst kv); VBs (snd kv)])) m)
+             (pre_v ++ VMap acc :: rest)
+    = Ok (pre_v ++ VMap (acc ++ m) :: rest).
+  Proof.
+    induction m as [|[k v] m IH]; intros acc Hk Hnd Hm Hsz; [cbn; now rewrite app_nil_r|].
+    inversion Hm as [|? ? [Hku Hvu] Hm']; subst. cbn [fst snd] in *.
+    cbn [map fold_res merge_f enc_msg fst snd]. rewrite found, Hk, slot.
+    cbn [as_message RECURSION_LIMIT].
+    rewrite parse_ser; [|apply enc_flat_shape, ENTRY_ok|apply (Hsz (k, v)); now left]. cbn [bind].
+    rewrite dec_flat_enc; [|apply ENTRY_ok|repeat constructor; assumption]. cbn [bind nth bs_of]. rewrite put.
+    rewrite map_insert_fresh.
+    2:{ rewrite map_app in Hnd. cbn [map fst] in Hnd. intros Hin. apply NoDup_remove_2 in Hnd. apply Hnd.
+        apply in_or_app. now left. }
+    rewrite IH; [now rewrite <- app_assoc|assumption|now rewrite <- app_assoc|assumption|].
+    intros kv Hin. apply Hsz. now right.
+  Qed.
+
+  Lemma step_field v : kind_ok (fknd e) -> val_ok (fknd e) v ->
+    (forall t b, In (t, WLen b) (enc_f (ftag e) (fknd e) v) -> nlen b < U64) ->
+    fold_res (merge_f S) (enc_f (ftag e) (fknd e) v) (pre_v ++ dflt_f (fknd e) :: rest) = Ok (pre_v ++ v :: rest).
+  Proof.
+    intros Hko Hv Hsz. destruct (fknd e) as [sk| |fs|fs|] eqn:Hk; destruct v as [x|l|o|l|m]; cbn [val_ok] in Hv; try contradiction;
+      cbn [enc_f dflt_f].
+    - destruct (merge_enc_s (ftag e) sk x Hv) as [[-> ->]|(w & -> & Hw)]; [reflexivity|].
+      cbn [fold_res merge_f]. rewrite found, Hk, Hw. cbn [bind]. now rewrite put.
+    - rewrite (step_strs l [] Hk Hv). reflexivity.
+    - destruct o as [x|]; [|reflexivity]. cbn [fold_res merge_f enc_msg]. rewrite found, Hk, slot.
+      cbn [as_message RECURSION_LIMIT].
+      rewrite parse_ser; [|apply enc_flat_shape, Hko|apply (Hsz (ftag e)); now left]. cbn [bind].
+      fold (dec_flat fs (enc_flat fs x)). rewrite dec_flat_enc by assumption. cbn [bind]. now rewrite put.
+    - rewrite (step_rep fs l [] Hk Hko Hv); [reflexivity|].
+      intros x Hx. apply (Hsz (ftag e)). apply in_map_iff. exists x. split; [reflexivity|exact Hx].
+    - destruct Hv as [Hnd Hm]. rewrite (step_map m [] Hk Hnd Hm); [reflexivity|].
+      intros kv Hkv. apply (Hsz (ftag e)). apply in_map_iff. exists kv. split; [reflexivity|exact Hkv].
+  Qed.
+End FieldStep.
+
+Lemma enc_fields_In_app e s v vs f : In f (enc_fields (e :: s) (v :: vs)) <-> In f (enc_f (ftag e) (fknd e) v) \/ In f (enc_fields s vs).
+Proof. cbn [enc_fields]. apply in_app_iff. Qed.
+
+Lemma dec_enc_fields_aux : forall post pre pre_v vs,
+  NoDup (tags_of (pre ++ post)) -> Forall (fun e => kind_ok (fknd e)) post -> length pre_v = length pre -> vals_ok post vs ->
+  (forall t b, In (t, WLen b) (enc_fields post vs) -> nlen b < U64) ->
+  fold_res (merge_f (pre ++ post)) (enc_fields post vs) (pre_v ++ dflt_fields post) = Ok (pre_v ++ vs).
+Proof.
+  induction post as [|e post IH]; intros pre pre_v vs Hnd Hk Hlp Hv Hsz.
+  - inversion Hv; subst. reflexivity.
+  - inversion Hv as [|? v ? vs' Hv1 Hv2]; subst. inversion Hk as [|? ? Hk1 Hk2]; subst.
+    cbn [enc_fields dflt_fields map]. rewrite fold_res_app.
+    assert (Hnot : ~ In (ftag e) (tags_of pre)).
+    { unfold tags_of in *. rewrite map_app in Hnd. cbn [map] in Hnd. apply NoDup_remove_2 in Hnd.
+      intros Hin. apply Hnd. apply in_or_app. now left. }
+    fold (dflt_fields post).
+    rewrite (step_field pre e post Hnot pre_v (dflt_fields post) Hlp v Hk1 Hv1).
+    2:{ intros t b Hin. apply (Hsz t). apply enc_fields_In_app. now left. }
+    cbn [bind].
+    replace (pre ++ e :: post) with ((pre ++ [e]) ++ post) in * by (now rewrite <- app_assoc).
+    replace (pre_v ++ v :: dflt_fields post) with ((pre_v ++ [v]) ++ dflt_fields post) by (now rewrite <- app_assoc).
+    rewrite IH; [now rewrite <- app_assoc|exact Hnd|exact Hk2| |exact Hv2|].
     + rewrite !app_length. cbn. lia.
-    + cbn in Hlv. lia.
-    + exact Hu2.
+    + intros t b Hin. apply (Hsz t). apply enc_fields_In_app. now right.
 Qed.
 
-Theorem dec_strs_enc tags vals : NoDup tags -> strs_ok tags vals -> dec_strs tags (enc_strs tags vals) = Ok vals.
+(* the tokens a table writes *)
+Lemma enc_f_tags tag k v f : In f (enc_f tag k v) -> fst f = tag.
 Proof.
-  intros Hnd [Hl Hu]. unfold dec_strs. exact (dec_strs_enc_aux tags [] [] vals Hnd eq_refl Hl Hu).
+  destruct k as [sk| |fs|fs|], v as [x|l|o|l|m]; cbn [enc_f]; try contradiction.
+  - apply enc_s_tags.
+  - unfold enc_rep_str. intros H. apply in_map_iff in H as (b & <- & _). reflexivity.
+  - destruct o; [|contradiction]. intros [<-|[]]. reflexivity.
+  - intros H. apply in_map_iff in H as (b & <- & _). reflexivity.
+  - intros H. apply in_map_iff in H as (b & <- & _). reflexivity.
+Qed.
+Lemma enc_f_shape lenient tag k v : tag_range tag ->
+  (match k with FScalar (SInt32 | SInt64) => existsb (N.eqb tag) lenient = false | _ => True end) ->
+  Forall (shape_ok lenient) (enc_f tag k v).
+Proof.
+  intros Ht Hl. destruct k as [sk| |fs|fs|], v as [x|l|o|l|m]; cbn [enc_f]; try constructor.
+  - apply enc_s_shape; [exact Ht|]. destruct sk; auto.
+  - unfold enc_rep_str. apply Forall_forall. intros f H. apply in_map_iff in H as (b & <- & _). split; [exact Ht|exact I].
+  - destruct o; [|constructor]. constructor; [|constructor]. split; [exact Ht|exact I].
+  - apply Forall_forall. intros f H. apply in_map_iff in H as (b & <- & _). split; [exact Ht|exact I].
+  - apply Forall_forall. intros f H. apply in_map_iff in H as (b & <- & _). split; [exact Ht|exact I].
+Qed.
+Lemma enc_f_bytes tag k v : val_bytes_ok v -> Forall payload_bytes_ok (enc_f tag k v).
+Proof.
+  intros Hv. destruct k as [sk| |fs|fs|], v as [x|l|o|l|m]; cbn [enc_f]; try constructor; cbn [val_bytes_ok] in Hv.
+  - now apply enc_s_bytes.
+  - unfold enc_rep_str. apply Forall_forall. intros f H. apply in_map_iff in H as (b & <- & Hb).
+    rewrite Forall_forall in Hv. now apply Hv.
+  - destruct o; [|constructor]. constructor; [|constructor]. unfold payload_bytes_ok. cbn [snd enc_msg].
+    now apply ser_bytes, enc_flat_bytes.
+  - apply Forall_forall. intros f H. apply in_map_iff in H as (b & <- & Hb). unfold payload_bytes_ok. cbn [snd enc_msg].
+    apply ser_bytes, enc_flat_bytes. rewrite Forall_forall in Hv. now apply Hv.
+  - apply Forall_forall. intros f H. apply in_map_iff in H as (kv & <- & Hb). unfold payload_bytes_ok. cbn [snd enc_msg].
+    apply ser_bytes, enc_flat_bytes. rewrite Forall_forall in Hv. destruct (Hv kv Hb). repeat constructor; assumption.
 Qed.
 
-Lemma enc_strs_shape tags vals : Forall (fun t => 1 <= t <= MAX_TAG) tags -> Forall (shape_ok []) (enc_strs tags vals).
+Lemma NoDup_map_inj {A B} (f : A -> B) l a b : NoDup (map f l) -> In a l -> In b l -> f a = f b -> a = b.
 Proof.
-  revert vals. induction tags as [|t ts IH]; intros vals Ht; [constructor|].
-  destruct vals as [|v vs]; [constructor|]. inversion Ht; subst. cbn [enc_strs].
-  apply Forall_app. split; [|now apply IH].
-  destruct v; [constructor|]. constructor; [|constructor]. split; [assumption|exact I].
+  induction l as [|x l IH]; intros Hnd Ha Hb E; [contradiction|]. cbn [map] in Hnd. inversion Hnd as [|? ? Hx Hnd']; subst.
+  destruct Ha as [->|Ha], Hb as [->|Hb]; [reflexivity| | |now apply IH].
+  - exfalso. apply Hx. rewrite E. now apply in_map.
+  - exfalso. apply Hx. rewrite <- E. now apply in_map.
+Qed.
+(* the tag of a field that is not a map is not the tag of a map field *)
+Lemma not_lenient (s : schema) e : NoDup (tags_of s) -> In e s ->
+  (match fknd e with FMapSS => False | _ => True end) -> existsb (N.eqb (ftag e)) (lenient_of s) = false.
+Proof.
+  intros Hnd He Hk. destruct (existsb (N.eqb (ftag e)) (lenient_of s)) eqn:E; [|reflexivity].
+  apply existsb_eqb_in in E. unfold lenient_of in E. apply in_map_iff in E as (e' & Et & He').
+  apply filter_In in He' as [He' Hm].
+  assert (e' = e) as -> by (eapply (NoDup_map_inj ftag); eauto).
+  destruct (fknd e); try discriminate. contradiction.
 Qed.
 
-Lemma enc_strs_bytes tags vals : Forall (fun v => bytes_ok v = true) vals ->
-  Forall (fun f => match snd f with WVar _ | WGrp => True | W64 b | WLen b | W32 b => bytes_ok b = true end) (enc_strs tags vals).
+Lemma enc_fields_shape_aux full : NoDup (tags_of full) -> forall s vs, incl s full -> Forall tag_range (tags_of s) ->
+  Forall (shape_ok (lenient_of full)) (enc_fields s vs).
 Proof.
-  revert vals. induction tags as [|t ts IH]; intros vals Hv; [constructor|].
-  destruct vals as [|v vs]; [constructor|]. inversion Hv; subst. cbn [enc_strs].
-  apply Forall_app. split; [|now apply IH]. destruct v; constructor; [assumption|constructor].
+  intros Hnd. induction s as [|e s IH]; intros vs Hin Ht; [constructor|]. destruct vs as [|v vs]; [constructor|].
+  inversion Ht; subst. cbn [enc_fields]. apply Forall_app. split.
+  - apply enc_f_shape; [assumption|]. destruct (fknd e) as [[| | |]| | | |] eqn:Hk; try exact I;
+      (apply not_lenient; [exact Hnd|apply Hin; now left|now rewrite Hk]).
+  - apply IH; [|assumption]. intros x Hx. apply Hin. now right.
+Qed.
+Lemma enc_fields_shape s vs : schema_ok s -> Forall (shape_ok (lenient_of s)) (enc_fields s vs).
+Proof. intros (Hnd & Ht & _). apply enc_fields_shape_aux; [exact Hnd|apply incl_refl|exact Ht]. Qed.
+
+Lemma enc_fields_bytes s vs : Forall val_bytes_ok vs -> Forall payload_bytes_ok (enc_fields s vs).
+Proof.
+  revert vs. induction s as [|e s IH]; intros vs Hv; [constructor|]. destruct vs as [|v vs]; [constructor|].
+  inversion Hv; subst. cbn [enc_fields]. apply Forall_app. split; [now apply enc_f_bytes|now apply IH].
+Qed.
+Lemma enc_g_bytes s vs : Forall val_bytes_ok vs -> bytes_ok (enc_g s vs) = true.
+Proof. intros H. apply ser_bytes. now apply enc_fields_bytes. Qed.
+
+(* THE message round trip, for every table: what `encode` writes for a value of the table, `decode`
+   reads back as that value *)
+Theorem dec_enc_g s vs : schema_ok s -> vals_ok s vs -> nlen (enc_g s vs) < U64 -> dec_g s (enc_g s vs) = Ok vs.
+Proof.
+  intros Hs Hv Hsz. pose proof Hs as (Hnd & Ht & Hk). unfold dec_g, enc_g in *.
+  rewrite parse_ser; [|now apply enc_fields_shape|exact Hsz]. cbn [bind].
+  apply (dec_enc_fields_aux s [] [] vs Hnd Hk eq_refl Hv).
+  intros t b Hin. pose proof (ser_payload_small t b _ Hin). lia.
 Qed.
 
-(* ---------- a repeated field of such messages ---------- *)
-Lemma merge_rep_strs_good tag inner acc f : good (merge_rep_strs tag inner acc f).
+(* -- the decidable side conditions of a table, for tables that are given as data -- *)
+Fixpoint nodupb (l : list N) : bool :=
+  match l with [] => true | x :: r => negb (existsb (N.eqb x) r) && nodupb r end.
+Lemma nodupb_NoDup l : nodupb l = true -> NoDup l.
 Proof.
-  destruct f as [t v]. unfold merge_rep_strs. destruct (t =? tag); [|exact I].
-  apply good_bind; [apply as_message_good|]. intros fs _.
-  apply good_bind; [apply dec_strs_good|]. intros; exact I.
+  induction l as [|x l IH]; intros H; [constructor|]. cbn [nodupb] in H. apply andb_prop in H as [H1 H2].
+  constructor; [|now apply IH]. intros Hin. apply existsb_eqb_in in Hin. now rewrite Hin in H1.
 Qed.
-Lemma dec_rep_strs_good tag inner fs : good (dec_rep_strs tag inner fs).
-Proof. apply fold_res_good. intros. apply merge_rep_strs_good. Qed.
-
-Lemma enc_rep_strs_shape tag inner items : 1 <= tag <= MAX_TAG -> Forall (shape_ok []) (enc_rep_strs tag inner items).
+Definition tag_rangeb (t : N) : bool := (1 <=? t) && (t <=? MAX_TAG).
+Definition tags_okb {K} (s : list (String.string * N * K)) : bool := nodupb (tags_of s) && forallb tag_rangeb (tags_of s).
+Lemma tags_okb_spec {K} (s : list (String.string * N * K)) : tags_okb s = true -> NoDup (tags_of s) /\ Forall tag_range (tags_of s).
 Proof.
-  intros Ht. unfold enc_rep_strs. apply Forall_forall. intros f Hin. apply in_map_iff in Hin as (it & <- & _).
-  split; [exact Ht|exact I].
+  intros H. apply andb_prop in H as [H1 H2]. split; [now apply nodupb_NoDup|].
+  apply Forall_forall. intros t Ht. rewrite forallb_forall in H2. specialize (H2 t Ht).
+  unfold tag_rangeb in H2. apply andb_prop in H2 as [A B]. unfold tag_range. lia.
 Qed.
-
-Theorem dec_rep_strs_enc tag inner items :
-  tags_ok inner -> Forall (strs_ok inner) items ->
-  nlen (ser (enc_rep_strs tag inner items)) < U64 ->
-  dec_rep_strs tag inner (enc_rep_strs tag inner items) = Ok items.
+Definition schema_okb (s : schema) : bool :=
+  tags_okb s && forallb (fun e => match fknd e with FMsgOpt fs | FMsgRep fs => tags_okb fs | _ => true end) s.
+Lemma schema_okb_spec s : schema_okb s = true -> schema_ok s.
 Proof.
-  intros [Hnd Hr] Hit Hsz. unfold dec_rep_strs.
-  assert (G : forall acc, fold_res (merge_rep_strs tag inner) (enc_rep_strs tag inner items) acc = Ok (acc ++ items)).
-  { assert (Small : forall it, In it items -> nlen (ser (enc_strs inner it)) < U64).
-    { intros it Hin. enough (nlen (ser (enc_strs inner it)) <= nlen (ser (enc_rep_strs tag inner items))) by lia.
-      apply (ser_payload_small tag). unfold enc_rep_strs. apply in_map_iff. exists it. split; [reflexivity|exact Hin]. }
-    clear Hsz. induction items as [|it items IH]; intros acc; [cbn; now rewrite app_nil_r|].
-    inversion Hit as [|? ? Hi1 Hi2]; subst. cbn [enc_rep_strs map fold_res merge_rep_strs enc_msg].
-    rewrite N.eqb_refl. cbn [as_message RECURSION_LIMIT].
-    rewrite parse_ser by (try apply enc_strs_shape; try assumption; apply Small; now left).
-    cbn [bind]. rewrite dec_strs_enc by assumption. cbn [bind].
-    fold (enc_rep_strs tag inner items). rewrite IH; [now rewrite <- app_assoc|assumption|].
-    intros it' Hin. apply Small. now right. }
-  exact (G []).
+  intros H. apply andb_prop in H as [H1 H2]. destruct (tags_okb_spec s H1) as [A B]. split; [exact A|]. split; [exact B|].
+  apply Forall_forall. intros e He. rewrite forallb_forall in H2. specialize (H2 e He).
+  destruct (fknd e); try exact I; now apply tags_okb_spec.
 Qed.
 
-Lemma enc_rep_strs_bytes tag inner items :
-  Forall (Forall (fun v => bytes_ok v = true)) items ->
-  Forall (fun f => match snd f with WVar _ | WGrp => True | W64 b | WLen b | W32 b => bytes_ok b = true end)
-         (enc_rep_strs tag inner items).
+(* -- access by name -- *)
+Lemma Forall2_arrange {K A} (P : K -> A -> Prop) (s : list (String.string * N * K)) dflt named :
+  (forall e, In e s -> P (fknd e) (lookup (fname e) named (dflt (fknd e)))) ->
+  Forall2 (fun e v => P (fknd e) v) s (arrange s dflt named).
 Proof.
-  intros H. unfold enc_rep_strs. apply Forall_forall. intros f Hin. apply in_map_iff in Hin as (it & <- & Hit).
-  cbn. apply ser_bytes, enc_strs_bytes. rewrite Forall_forall in H. now apply H.
+  unfold arrange. induction s as [|e s IH]; intros H; [constructor|]. cbn [map]. constructor.
+  - apply H. now left.
+  - apply IH. intros e' He'. apply H. now right.
+Qed.
+
+(* -- what a decode returns has the types of the table (Rust's field types, here an invariant of
+      the merges): an int32 / int64 field holds a number of its range, a bytes / string field bytes -- *)
+Lemma fold_res_inv {S T} (P : S -> Prop) (f : S -> T -> res S) l :
+  (forall s x s', P s -> f s x = Ok s' -> P s') -> forall s s', P s -> fold_res f l s = Ok s' -> P s'.
+Proof.
+  intros H. induction l as [|x l IH]; intros s s' Hs; cbn; [intros [= <-]; exact Hs|].
+  destruct (f s x) as [s1| | |] eqn:E; try discriminate. apply IH. eapply H; eauto.
+Qed.
+
+Definition sval_typed (k : skind) (v : sval) : Prop :=
+  match k, v with
+  | SInt32, VInt z => (-2147483648 <= z < 2147483648)%Z
+  | SInt64, VInt z => (-9223372036854775808 <= z < 9223372036854775808)%Z
+  | SString, VBs _ | SBytes, VBs _ => True
+  | _, _ => False
+  end.
+Definition flat_typed (s : flat) (vs : list sval) : Prop := Forall2 (fun e v => sval_typed (fknd e) v) s vs.
+Definition val_typed (k : fkind) (v : val) : Prop :=
+  match k, v with
+  | FScalar sk, VS x => sval_typed sk x
+  | FStringRep, VStrs _ => True
+  | FMsgOpt fs, VOpt o => match o with Some x => flat_typed fs x | None => True end
+  | FMsgRep fs, VRep l => Forall (flat_typed fs) l
+  | FMapSS, VMap _ => True
+  | _, _ => False
+  end.
+Definition vals_typed (s : schema) (vs : list val) : Prop := Forall2 (fun e v => val_typed (fknd e) v) s vs.
+
+Lemma merge_s_typed k w v : merge_s k w = Ok v -> sval_typed k v.
+Proof.
+  destruct k; cbn [merge_s].
+  - destruct (as_varint w); try discriminate. intros [= <-]. apply to_i32_range.
+  - destruct (as_varint w); try discriminate. intros [= <-]. apply to_i64_range.
+  - destruct (as_string w); try discriminate. now intros [= <-].
+  - destruct (as_bytes w); try discriminate. now intros [= <-].
+Qed.
+Lemma dflt_s_typed k : sval_typed k (dflt_s k).
+Proof. destruct k; cbn; lia || exact I. Qed.
+Lemma dflt_flat_typed s : flat_typed s (dflt_flat s).
+Proof. induction s as [|e s IH]; constructor; [apply dflt_s_typed|exact IH]. Qed.
+
+Lemma find_field_nth {K} t (s : list (String.string * N * K)) i k :
+  find_field t s = Some (i, k) -> exists e, nth_error s i = Some e /\ fknd e = k.
+Proof.
+  revert i. induction s as [|e s IH]; intros i; [discriminate|]. cbn [find_field].
+  destruct (t =? ftag e).
+  - intros [= <- <-]. exists e. now split.
+  - destruct (find_field t s) as [[j k']|]; [|discriminate]. intros [= <- <-].
+    destruct (IH j eq_refl) as (e' & H1 & H2). exists e'. now split.
+Qed.
+Lemma Forall2_upd {A B} (P : A -> B -> Prop) s st i e v :
+  Forall2 P s st -> nth_error s i = Some e -> P e v -> Forall2 P s (upd i v st).
+Proof.
+  intros H. revert i. induction H as [|a b s st Hab H IH]; intros i Hn Hp; [now destruct i|].
+  destruct i as [|i]; cbn [upd].
+  - cbn in Hn. injection Hn as ->. now constructor.
+  - constructor; [exact Hab|]. now apply IH.
+Qed.
+Lemma Forall2_nth {A B} (P : A -> B -> Prop) s st i e d :
+  Forall2 P s st -> nth_error s i = Some e -> P e d -> P e (nth i st d).
+Proof.
+  intros H. revert i. induction H as [|a b s st Hab H IH]; intros i Hn Hp; [now destruct i|].
+  destruct i as [|i]; cbn [nth].
+  - cbn in Hn. now injection Hn as ->.
+  - now apply IH.
+Qed.
+
+Lemma merge_flat_typed s st f st' : flat_typed s st -> merge_flat s st f = Ok st' -> flat_typed s st'.
+Proof.
+  destruct f as [t w]. unfold merge_flat. intros H.
+  destruct (find_field t s) as [[i k]|] eqn:E; [|now intros [= <-]].
+  destruct (merge_s k w) as [v| | |] eqn:Ev; try discriminate. cbn [bind]. intros [= <-].
+  destruct (find_field_nth _ _ _ _ E) as (e & Hn & <-).
+  eapply Forall2_upd; eauto. now apply merge_s_typed in Ev.
+Qed.
+Lemma fold_merge_flat_typed s fs st st' : flat_typed s st -> fold_res (merge_flat s) fs st = Ok st' -> flat_typed s st'.
+Proof. apply (fold_res_inv (flat_typed s)). intros. eapply merge_flat_typed; eauto. Qed.
+
+Lemma dflt_f_typed k : val_typed k (dflt_f k).
+Proof. destruct k; cbn; try exact I; [apply dflt_s_typed|constructor]. Qed.
+Lemma dflt_fields_typed s : vals_typed s (dflt_fields s).
+Proof. induction s as [|e s IH]; constructor; [apply dflt_f_typed|exact IH]. Qed.
+
+Lemma merge_f_typed s st f st' : vals_typed s st -> merge_f s st f = Ok st' -> vals_typed s st'.
+Proof.
+  destruct f as [t w]. unfold merge_f. intros H.
+  destruct (find_field t s) as [[i k]|] eqn:E; [|now intros [= <-]].
+  destruct (find_field_nth _ _ _ _ E) as (e & Hn & Hk).
+  pose proof (Forall2_nth _ _ _ i e (dflt_f k) H Hn) as Hslot. cbv beta in Hslot. rewrite Hk in Hslot. specialize (Hslot (dflt_f_typed k)).
+  destruct k as [sk| |fs|fs|].
+  - destruct (merge_s sk w) as [v| | |] eqn:Ev; try discriminate. cbn [bind]. intros [= <-].
+    eapply Forall2_upd; eauto. rewrite Hk. cbn. now apply merge_s_typed in Ev.
+  - destruct (nth i st (dflt_f FStringRep)); try (now intros [= <-]).
+    destruct (as_string w); try discriminate. cbn [bind]. intros [= <-]. eapply Forall2_upd; eauto. now rewrite Hk.
+  - destruct (nth i st (dflt_f (FMsgOpt fs))) as [ | |o| | ]; try (now intros [= <-]).
+    destruct (as_message RECURSION_LIMIT w) as [toks| | |]; try discriminate. cbn [bind].
+    destruct (fold_res (merge_flat fs) toks _) as [x| | |] eqn:Ex; try discriminate. cbn [bind]. intros [= <-].
+    eapply Forall2_upd; eauto. rewrite Hk. cbn.
+    eapply fold_merge_flat_typed; [|exact Ex]. cbn in Hslot. destruct o; [exact Hslot|apply dflt_flat_typed].
+  - destruct (nth i st (dflt_f (FMsgRep fs))) as [ | | |l| ]; try (now intros [= <-]).
+    destruct (as_message RECURSION_LIMIT w) as [toks| | |]; try discriminate. cbn [bind].
+    destruct (dec_flat fs toks) as [x| | |] eqn:Ex; try discriminate. cbn [bind]. intros [= <-].
+    eapply Forall2_upd; eauto. rewrite Hk. cbn. apply Forall_app. split; [exact Hslot|].
+    constructor; [|constructor]. eapply fold_merge_flat_typed; [apply dflt_flat_typed|exact Ex].
+  - destruct (nth i st (dflt_f FMapSS)); try (now intros [= <-]).
+    destruct (as_message RECURSION_LIMIT w) as [toks| | |]; try discriminate. cbn [bind].
+    destruct (dec_flat ENTRY toks); try discriminate. cbn [bind]. intros [= <-].
+    eapply Forall2_upd; eauto. now rewrite Hk.
+Qed.
+Theorem dec_g_typed s b vs : dec_g s b = Ok vs -> vals_typed s vs.
+Proof.
+  unfold dec_g. destruct (parse RECURSION_LIMIT (lenient_of s) b) as [fs| | |]; try discriminate. cbn [bind].
+  apply (fold_res_inv (vals_typed s)); [|apply dflt_fields_typed]. intros. eapply merge_f_typed; eauto.
+Qed.
+
+(* -- where the tokens of a field are -- *)
+Lemma enc_fields_incl s : forall vs e v, In (e, v) (combine s vs) -> incl (enc_f (ftag e) (fknd e) v) (enc_fields s vs).
+Proof.
+  induction s as [|e0 s IH]; intros vs e v Hin; [contradiction|]. destruct vs as [|v0 vs]; [contradiction|].
+  cbn [combine enc_fields] in *. intros f Hf. apply in_or_app. destruct Hin as [[= <- <-]|Hin]; [now left|].
+  right. eapply IH; eauto.
+Qed.
+Lemma enc_flat_incl s : forall vs e v, In (e, v) (combine s vs) -> incl (enc_s (ftag e) (fknd e) v) (enc_flat s vs).
+Proof.
+  induction s as [|e0 s IH]; intros vs e v Hin; [contradiction|]. destruct vs as [|v0 vs]; [contradiction|].
+  cbn [combine enc_flat] in *. intros f Hf. apply in_or_app. destruct Hin as [[= <- <-]|Hin]; [now left|].
+  right. eapply IH; eauto.
+Qed.
+Lemma combine_arrange {K A} (s : list (String.string * N * K)) dflt (named : list (String.string * A)) e :
+  In e s -> In (e, lookup (fname e) named (dflt (fknd e))) (combine s (arrange s dflt named)).
+Proof.
+  unfold arrange. induction s as [|e0 s IH]; intros Hin; [contradiction|]. cbn [map combine].
+  destruct Hin as [->|Hin]; [now left|right; now apply IH].
 Qed.
